@@ -65,6 +65,9 @@ var impls = map[string]func(string) string{
 	"mfs.index":       implMfsIndex,
 	"mfs.sparse":      implMfsSparse,
 	"cmdflow.run":     implCmdflowRun,
+	"mtree.line":      implMtreeLine,
+	"mtree.parse":     implMtreeParse,
+	"mtree.name":      implMtreeName,
 }
 
 type replayFile struct {
